@@ -151,13 +151,29 @@ def expected_components(spec, mask):
     raise ValueError(fam)
 
 
-def d17_predicate(spec, comps) -> bool:
-    """Known finding cyl-periodic-spanning-fallback: periodic cylindrical image with an
-    on-axis component that winds in z or whose unwrapped z extent exceeds the box."""
+def d17_predicate(spec, comps, mask=None) -> bool:
+    """Known finding cyl-periodic-spanning-fallback: periodic cylindrical image with an on-axis component that
+    winds in z, or - for components longer than the box that do not wind - whose copy at the lower end of the
+    three-period window (the image extended by one period to either side) is cut there and still longer than one
+    period.  That is exactly the situation in which the analysis takes an object for box-spanning; other
+    components longer than the box (e.g. a slanted band starting further up) are analysed correctly and judged."""
     if spec["family"] != "cyl" or not spec["periodic_z"]:
         return False
     nz = spec["shape"][1]
-    return any(c["on_axis"] and (c["winding"] or c["extent"][1] > nz) for c in comps)
+    if any(c["on_axis"] and c["winding"] for c in comps):
+        return True
+    if not any(c["on_axis"] and c["extent"][1] > nz for c in comps):
+        return False
+    if mask is None:
+        return True
+    from scipy import ndimage
+
+    padded = np.pad(np.asarray(mask, bool), [[0, 0], [nz, nz]], mode="wrap")
+    labels, _n = ndimage.label(padded)
+    for sl in ndimage.find_objects(labels):
+        if sl[0].start == 0 and sl[1].start == 0 and sl[1].stop > nz:
+            return True
+    return False
 
 
 def _max_matching(adj, n_right):
@@ -197,7 +213,7 @@ def check_result(spec, mask, found, rec, *, label="", ignore_known=False):
     facts = {"ncomp": len(relevant), "multi_piece": any(c["sheets"] >= 2 for c in relevant),
              "winding": any(c["winding"] for c in relevant), "dropped": 0}
 
-    if fam == "cyl" and d17_predicate(spec, comps) and not ignore_known:
+    if fam == "cyl" and d17_predicate(spec, comps, mask) and not ignore_known:
         rec.count("known_subdomain:cyl-periodic-spanning-fallback")
         facts["d17"] = True
         return facts
@@ -555,7 +571,7 @@ def _known_sentinel(rec, which):
         m[:, 1] = True
         m[:3, 6] = True
     comps, _ = expected_components(spec, m)
-    if which == "cyl-periodic-spanning-fallback" and not d17_predicate(spec, comps):
+    if which == "cyl-periodic-spanning-fallback" and not d17_predicate(spec, comps, m):
         rec.harness_error("d17 sentinel image does not satisfy its predicate")
         return
     call = common.monitored(rec, "locate_droplets_in_mask", locate_droplets_in_mask,
